@@ -8,7 +8,6 @@ import (
 	"sync"
 )
 
-
 // replay: re-execute the calls of a recorded unit (a replay file written by
 // bin/check) against the real code and record them again.
 type replayT struct {
@@ -165,7 +164,7 @@ func replayFile(path string) {
 	for i := 0; i < len(u); i++ {
 		e := u[i]
 		op, _ := e["op"].(string)
-		keep := extraOf(e, "group", "variant", "argid", "fam", "cls", "k")
+		keep := extraOf(e, "group", "variant", "argid", "fam", "cls", "k", "gen")
 		switch op {
 		case "ByEntropy":
 			var ent []byte
